@@ -710,4 +710,423 @@ example : Wf (.bin .mul (.bin .add (.ident ['a']) (.const 2)) (.un .minus (.bin 
   .bin _ _ _ (.bin _ _ _ (.ident _ ⟨'a', [], rfl, by decide, by decide⟩) (.const 2 2 rfl (by decide)))
     (.un _ _ (.bin _ _ _ (.ident _ ⟨'b', [], rfl, by decide, by decide⟩) (.const 1 1 rfl (by decide))))
 
+/-! ### blanks anywhere between the tokens, and parentheses that are not needed -/
+
+/-- what may follow an operand when blanks are allowed: after the blanks, no identifier
+    character directly behind the operand and no `(` -/
+def AtomEndB (rest : Str) : Prop :=
+  (∀ y, rest.head? = some y → isIdentChar y = false) ∧ ∀ r2, skipSpace rest ≠ '(' :: r2
+
+theorem atomEndB_of (rest : Str) (h : AtomEnd rest) : AtomEndB rest := by
+  refine ⟨fun y hy => (h y hy).1, ?_⟩
+  intro r2 hr
+  cases rest with
+  | nil => simp [skipSpace] at hr
+  | cons y ys =>
+    have hy := h y rfl
+    simp [skipSpace, hy.2.2] at hr
+    exact hy.2.1 hr.1
+
+theorem atomEndB_blanks (w rest : Str) (hw : blanks w) (hrest : AtomEndB rest) (hne : w ≠ [] ∨ True) :
+    AtomEndB (w ++ rest) := by
+  refine ⟨?_, ?_⟩
+  · intro y hy
+    cases w with
+    | nil => exact hrest.1 y (by simpa using hy)
+    | cons c cs =>
+      simp at hy; subst hy
+      have hc : isSpace c = true := hw c (by simp)
+      simp only [isSpace, Bool.or_eq_true, beq_iff_eq] at hc
+      rcases hc with rfl | rfl <;> decide
+  · intro r2
+    rw [space_absorbs w rest hw]
+    exact hrest.2 r2
+
+/-- identifiers and numbers are read with blanks behind them too -/
+theorem evPA_ident (s : Str) (hs : isName s) (rest : Str) (hr : AtomEndB rest) : EvPA (s ++ rest) (.ok (.ident s) rest) := by
+  obtain ⟨x, xs, rfl, hx, hxs⟩ := hs
+  have hn : isName (x :: xs) := ⟨x, xs, rfl, hx, hxs⟩
+  have fx := identStart_facts x hx
+  refine ⟨by simp, (0 + 1) + prefixOps.length + 2, ?_⟩
+  rw [prefixAtom_atom _ (by
+    have := prefix_none_of x (xs ++ rest) ⟨fx.2.2.2.2.2.1, fx.2.2.2.2.2.2.1, fx.2.2.2.2.2.2.2.1⟩
+    simpa using this)]
+  have hid : identText ((x :: xs) ++ rest) = some (x :: xs, rest) :=
+    identText_name _ rest hn (fun y hy => hr.1 y hy)
+  have hec : eConst ((x :: xs) ++ rest) = none := by
+    have h1 : ¬ '$' = x := fun h => fx.2.2.1 h.symm
+    have h0 : ¬ '0' = x := fun h => fx.2.2.2.2.2.2.2.2 h.symm
+    simp [eConst, constAlt, lit, takeWhileP, fx.1, h1, h0]
+  have hch : ch ((x :: xs) ++ rest) = none := by
+    simp only [List.cons_append, ch]
+    split
+    · rename_i heq; simp only [List.cons.injEq] at heq; exact absurd heq.1 fx.2.2.2.2.1
+    · rfl
+  simp only [parseAtom, hid, hec, hch]
+  split
+  · rename_i e r heq
+    split at heq
+    · rename_i r2 hc; exact absurd hc (hr.2 r2)
+    · simp at heq
+  · rename_i heq
+    split at heq
+    · rename_i r2 hc; exact absurd hc (hr.2 r2)
+    · simp at heq
+  · split
+    · rename_i e r heq
+      split at heq
+      · rename_i r1 hc; simp only [List.cons_append, List.cons.injEq] at hc; exact absurd hc.1 fx.2.2.2.1
+      · simp at heq
+    · rename_i heq
+      split at heq
+      · rename_i r1 hc; simp only [List.cons_append, List.cons.injEq] at hc; exact absurd hc.1 fx.2.2.2.1
+      · simp at heq
+    · rfl
+
+theorem evPA_const (v : Int) (n : Nat) (hv : v = (n : Int)) (hfit : n < 2 ^ 63) (rest : Str) (hr : AtomEndB rest) :
+    EvPA (intToDec v ++ rest) (.ok (.const v) rest) := by
+  have hn : NumText (intToDec v) n := by rw [hv]; exact numText_intToDec n hfit
+  obtain ⟨y, ys, hs, hy⟩ := numText_head _ n hn rest
+  refine ⟨by simp, (0 + 1) + prefixOps.length + 2, ?_⟩
+  rw [prefixAtom_atom _ (by rw [hs]; exact prefix_none_num y ys hy)]
+  rw [parseAtom_num _ n hn rest hr.1 0, hv]
+
+theorem lit_beforeB (t : Str) : ∀ (o : Str), okBefore t o = true → ∀ (c : Char) (rest : Str), ¬ nonStart c →
+    lit t (o ++ c :: rest) = none ∨ ∃ y ys, lit t (o ++ c :: rest) = some (y :: ys) ∧ nonStart y := by
+  induction t with
+  | nil =>
+    intro o h c rest hc
+    cases o with
+    | nil => simp [okBefore] at h
+    | cons y ys =>
+      right
+      refine ⟨y, ys ++ c :: rest, by simp [lit], ?_⟩
+      simp only [okBefore, Bool.or_eq_true, beq_iff_eq] at h
+      rcases h with (((h | h) | h) | h) | h
+      · exact Or.inl h
+      · exact Or.inr (Or.inl h)
+      · exact Or.inr (Or.inr (Or.inl h))
+      · exact Or.inr (Or.inr (Or.inr (Or.inl h)))
+      · exact Or.inr (Or.inr (Or.inr (Or.inr h)))
+  | cons p ps ih =>
+    intro o h c rest hc
+    cases o with
+    | nil =>
+      cases ps with
+      | nil =>
+        left
+        simp only [okBefore, Bool.or_eq_true, beq_iff_eq] at h
+        have hn : nonStart p := by
+          rcases h with (((h | h) | h) | h) | h
+          · exact Or.inl h
+          · exact Or.inr (Or.inl h)
+          · exact Or.inr (Or.inr (Or.inl h))
+          · exact Or.inr (Or.inr (Or.inr (Or.inl h)))
+          · exact Or.inr (Or.inr (Or.inr (Or.inr h)))
+        have : p ≠ c := by intro hpc; subst hpc; exact hc hn
+        simp [lit, this]
+      | cons q qs => simp [okBefore] at h
+    | cons y ys =>
+      simp only [okBefore] at h
+      by_cases hpy : p = y
+      · subst hpy
+        simp only [if_true] at h
+        have := ih ys h c rest hc
+        simpa [lit] using this
+      · left; simp [lit, hpy]
+
+/-- what the operator's text is followed by: blanks, then the right operand -/
+theorem after_op_char (w s rest : Str) (hw : blanks w) (y : Char) (ys : Str) (hs : s = y :: ys) (hy : StartChar y) :
+    ∃ c rest', w ++ (s ++ rest) = c :: rest' ∧ ¬ nonStart c := by
+  cases w with
+  | nil => exact ⟨y, ys ++ rest, by rw [hs]; rfl, startChar_not_nonStart y hy⟩
+  | cons c cs =>
+    refine ⟨c, cs ++ (s ++ rest), rfl, ?_⟩
+    have hc : isSpace c = true := hw c (by simp)
+    simp only [isSpace, Bool.or_eq_true, beq_iff_eq] at hc
+    intro hn
+    rcases hc with rfl | rfl <;> (rcases hn with h | h | h | h | h <;> revert h <;> decide)
+
+theorem endAt_opB (op : BinOp) (m : Nat) (hm : opLevel op < m) (w : Str) (hw : blanks w) (c : Char) (rest : Str) (hc : ¬ nonStart c) :
+    EndAt m (w ++ (op.text ++ c :: rest)) := by
+  intro x hx
+  by_cases hlv : x.2.2.1 < m
+  · exact Or.inl hlv
+  · right
+    have hne : x.2.1 ≠ op := by
+      intro h
+      have := (table_levels x hx).2
+      rw [h] at this
+      omega
+    rw [space_absorbs w _ hw, skip_op]
+    rcases lit_beforeB x.1 op.text (table_others op x hx hne) c rest hc with h | ⟨y, ys, h, hy⟩
+    · exact Or.inl h
+    · exact Or.inr ⟨y, ys, h, nonStart_noStart y hy⟩
+
+theorem endAt_parenB (m : Nat) (w rest : Str) (hw : blanks w) : EndAt m (w ++ ')' :: rest) := by
+  intro x hx
+  rcases endAt_paren m rest x hx with h | h | ⟨y, ys, h, hy⟩
+  · exact Or.inl h
+  · right; left; rw [space_absorbs w _ hw]; exact h
+  · right; right; exact ⟨y, ys, by rw [space_absorbs w _ hw]; exact h, hy⟩
+
+theorem atomEndB_paren (w rest : Str) (hw : blanks w) : AtomEndB (w ++ ')' :: rest) :=
+  atomEndB_blanks w _ hw (atomEndB_of _ (atomEnd_paren rest)) (Or.inr trivial)
+
+theorem atomEndB_op (w : Str) (hw : blanks w) (op : BinOp) (rest : Str) : AtomEndB (w ++ (op.text ++ rest)) :=
+  atomEndB_blanks w _ hw (atomEndB_of _ (atomEnd_op op rest)) (Or.inr trivial)
+
+/-! #### operands with blanks inside -/
+
+theorem skip_blanks_to (w s : Str) (hw : blanks w) (hs : skipSpace s = s) : skipSpace (w ++ s) = s := by
+  rw [space_absorbs w s hw, hs]
+
+theorem evPA_parenB (w0 w1 s' : Str) (e : Expr) (rest : Str) (hw0 : blanks w0) (hw1 : blanks w1) (hsk : skipSpace s' = s')
+    (h : EvI 0 s' (.ok e (w1 ++ ')' :: rest))) : EvPA ('(' :: (w0 ++ s')) (.ok e rest) := by
+  obtain ⟨f0, hf0⟩ := h.at
+  refine ⟨by simp, (f0 + 1) + prefixOps.length + 2, ?_⟩
+  rw [prefixAtom_atom _ (prefix_none_of '(' _ (by decide))]
+  have hid : identText ('(' :: (w0 ++ s')) = none := by simp +decide [identText]
+  have hsk0 := skip_blanks_to w0 s' hw0 hsk
+  have hsk3 : skipSpace (w1 ++ ')' :: rest) = ')' :: rest := by
+    rw [space_absorbs w1 _ hw1]; simp +decide [skipSpace]
+  simp only [parseAtom, hid, hsk0, hf0 f0 (Nat.le_refl _), hsk3]
+
+theorem evPA_funcB (name w0 w1 w2 s' : Str) (a : Expr) (rest : Str) (hname : isName name) (hw0 : blanks w0) (hw1 : blanks w1)
+    (hw2 : blanks w2) (hsk : skipSpace s' = s') (h : EvI 0 s' (.ok a (w2 ++ ')' :: rest))) :
+    EvPA (name ++ (w0 ++ '(' :: (w1 ++ s'))) (.ok (.func (.ident name) a) rest) := by
+  obtain ⟨f0, hf0⟩ := h.at
+  obtain ⟨x, xs, rfl, hx, hxs⟩ := hname
+  have hn : isName (x :: xs) := ⟨x, xs, rfl, hx, hxs⟩
+  have fx := identStart_facts x hx
+  refine ⟨by simp, (f0 + 1) + prefixOps.length + 2, ?_⟩
+  rw [prefixAtom_atom _ (by
+    have := prefix_none_of x (xs ++ (w0 ++ '(' :: (w1 ++ s'))) ⟨fx.2.2.2.2.2.1, fx.2.2.2.2.2.2.1, fx.2.2.2.2.2.2.2.1⟩
+    simpa using this)]
+  have hid : identText ((x :: xs) ++ (w0 ++ '(' :: (w1 ++ s'))) = some (x :: xs, w0 ++ '(' :: (w1 ++ s')) :=
+    identText_name _ _ hn (by
+      intro y hy
+      cases w0 with
+      | nil => simp at hy; subst hy; decide
+      | cons c cs =>
+        simp at hy; subst hy
+        have hc : isSpace c = true := hw0 c (by simp)
+        simp only [isSpace, Bool.or_eq_true, beq_iff_eq] at hc
+        rcases hc with rfl | rfl <;> decide)
+  have hsk1 : skipSpace (w0 ++ '(' :: (w1 ++ s')) = '(' :: (w1 ++ s') := by
+    rw [space_absorbs w0 _ hw0]; simp +decide [skipSpace]
+  have hsk2 := skip_blanks_to w1 s' hw1 hsk
+  have hsk3 : skipSpace (w2 ++ ')' :: rest) = ')' :: rest := by
+    rw [space_absorbs w2 _ hw2]; simp +decide [skipSpace]
+  simp only [parseAtom, hid, hsk1, hsk2, hf0 f0 (Nat.le_refl _), hsk3]
+
+theorem prefixSpace_on : Gen.prefixSpace = true := by decide
+
+theorem evPA_unB (u : UnOp) (w s' : Str) (e : Expr) (rest : Str) (hw : blanks w) (hsk : skipSpace s' = s')
+    (h : ∀ lv, lv ≤ top → (∀ x ∈ infixOps, x.2.2.1 < lv) → EvI lv s' (.ok e rest)) :
+    EvPA (u.text ++ (w ++ s')) (.ok (.un u e) rest) := by
+  obtain ⟨pre, lv, post, c, hsplit, hc, hpre, hlv⟩ := un_split u
+  have hle : lv ≤ top := prefix_levels (u.text, u, lv) (by rw [hsplit]; simp)
+  obtain ⟨f0, hf0⟩ := (h lv hle hlv).at
+  refine ⟨by simp, ((f0 + 1) + pre.length) + 1, ?_⟩
+  simp only [parsePrefixAtom]
+  rw [hsplit, tryPrefix_skip _ pre (by
+    intro x hx
+    obtain ⟨d, hd, hdc⟩ := hpre x hx
+    rw [hd, hc]; simp [lit, hdc])]
+  simp only [tryPrefix, hc, List.cons_append, List.nil_append, lit, if_true]
+  simp only [prefixSpace_on, if_true, skip_blanks_to w s' hw hsk, hf0 f0 (Nat.le_refl _)]
+
+/-! #### the texts -/
+
+/-- `Spaced m k e s`: `s` is a way of writing `e` where level `m` is asked for — any blanks
+    between the tokens, parentheses where the table requires them AND wherever else one likes;
+    `k` is the level above which the text behind `s` has to end the loop (`top` behind an operand,
+    one above the operator behind an open binary operation) -/
+inductive Spaced : Nat → Nat → Expr → Str → Prop
+  | ident (m : Nat) (s : Str) : isName s → Spaced m top (.ident s) s
+  | const (m : Nat) (v : Int) (n : Nat) : v = (n : Int) → n < 2 ^ 63 → Spaced m top (.const v) (intToDec v)
+  | un (m k : Nat) (u : UnOp) (e : Expr) (w s : Str) : blanks w → Spaced top k e s →
+      Spaced m top (.un u e) (u.text ++ (w ++ s))
+  | func (m k : Nat) (name : Str) (a : Expr) (w0 w1 w2 s : Str) : isName name → blanks w0 → blanks w1 → blanks w2 →
+      Spaced 0 k a s → Spaced m top (.func (.ident name) a) (name ++ (w0 ++ '(' :: (w1 ++ (s ++ (w2 ++ [')'])))))
+  | bin (m kl kr : Nat) (op : BinOp) (l r : Expr) (w1 w2 sl sr : Str) : ¬ opLevel op < m → blanks w1 → blanks w2 →
+      Spaced (opLevel op) kl l sl → Spaced (opLevel op + 1) kr r sr →
+      Spaced m (opLevel op + 1) (.bin op l r) (sl ++ (w1 ++ (op.text ++ (w2 ++ sr))))
+  | paren (m k : Nat) (e : Expr) (w0 w1 s : Str) : blanks w0 → blanks w1 → Spaced 0 k e s →
+      Spaced m top e ('(' :: (w0 ++ (s ++ (w1 ++ [')']))))
+
+theorem opLevel_lt_top (op : BinOp) : opLevel op < top := by
+  obtain ⟨pre, post, hs, _⟩ := table_entry op
+  exact (table_levels (op.text, op, opLevel op, opLevel op + 1) (by rw [hs]; simp)).1
+
+theorem spaced_level (m k : Nat) (e : Expr) (s : Str) (h : Spaced m k e s) : k = top ∨ m < k := by
+  cases h with
+  | bin _ _ _ op _ _ _ _ _ _ hlv _ _ _ _ => right; omega
+  | _ => exact Or.inl rfl
+
+theorem spaced_head (m k : Nat) (e : Expr) (s : Str) (h : Spaced m k e s) : ∃ y ys, s = y :: ys ∧ StartChar y := by
+  induction h with
+  | ident m s hs =>
+    obtain ⟨x, xs, rfl, hx, _⟩ := hs
+    exact ⟨x, xs, rfl, Or.inl hx⟩
+  | const m v n hv hfit =>
+    obtain ⟨y, ys, hy, hs⟩ := exprText_head (.const v) (.const v n hv hfit)
+    exact ⟨y, ys, by simpa [exprText] using hy, hs⟩
+  | un m k u e w s _ _ _ =>
+    cases u with
+    | minus => exact ⟨'-', _, rfl, Or.inr (Or.inr (Or.inr (Or.inl rfl)))⟩
+    | bnot => exact ⟨'~', _, rfl, Or.inr (Or.inr (Or.inr (Or.inr (Or.inl rfl))))⟩
+    | lnot => exact ⟨'!', _, rfl, Or.inr (Or.inr (Or.inr (Or.inr (Or.inr (Or.inl rfl)))))⟩
+  | func m k name a w0 w1 w2 s hn _ _ _ _ _ =>
+    obtain ⟨x, xs, rfl, hx, _⟩ := hn
+    exact ⟨x, _, rfl, Or.inl hx⟩
+  | bin m kl kr op l r w1 w2 sl sr _ _ _ _ _ ihl _ =>
+    obtain ⟨y, ys, hy, hs⟩ := ihl
+    exact ⟨y, ys ++ (w1 ++ (op.text ++ (w2 ++ sr))), by rw [hy]; rfl, hs⟩
+  | paren m k e w0 w1 s _ _ _ _ => exact ⟨'(', _, rfl, Or.inr (Or.inr (Or.inl rfl))⟩
+
+theorem skip_spaced (m k : Nat) (e : Expr) (s : Str) (h : Spaced m k e s) (rest : Str) : skipSpace (s ++ rest) = s ++ rest := by
+  obtain ⟨y, ys, hy, hs⟩ := spaced_head m k e s h
+  rw [hy]
+  simp [skipSpace, startChar_noSpace y hs]
+
+/-- parsing the text brings the loop to the expression, at any minimum level up to the one asked for -/
+def GoesS (m k : Nat) (e : Expr) (s : Str) : Prop :=
+  ∀ mp rest res, mp ≤ m → AtomEndB rest → EndAt k rest → EvL mp e rest res → EvI mp (s ++ rest) res
+
+theorem closedS (m k : Nat) (e : Expr) (s : Str) (hsp : Spaced m k e s) (hg : GoesS m k e s) (hm : m ≤ top) (rest : Str)
+    (hr : AtomEndB rest) (he : EndAt m rest) : EvI m (s ++ rest) (.ok e rest) := by
+  have hk : m ≤ k := by
+    rcases spaced_level m k e s hsp with h | h
+    · rw [h]; exact hm
+    · omega
+  exact hg m rest _ (Nat.le_refl _) hr (endAt_mono _ _ hk rest he) (evL_end m e rest he)
+
+theorem goesS (m k : Nat) (e : Expr) (s : Str) (h : Spaced m k e s) : GoesS m k e s := by
+  induction h with
+  | ident m s hs =>
+    intro mp rest res _ hr _ hl
+    exact evI_intro mp _ _ rest res (evPA_ident s hs rest hr) hl
+  | const m v n hv hfit =>
+    intro mp rest res _ hr _ hl
+    exact evI_intro mp _ _ rest res (evPA_const v n hv hfit rest hr) hl
+  | un m k u e w s hw hsp ih =>
+    intro mp rest res _ hr _ hl
+    have hform : u.text ++ (w ++ s) ++ rest = u.text ++ (w ++ (s ++ rest)) := by simp
+    rw [hform]
+    refine evI_intro mp _ (.un u e) rest res ?_ hl
+    refine evPA_unB u w _ e rest hw (skip_spaced _ _ _ _ hsp rest) ?_
+    intro lv hle hlv
+    have hend : EndAt lv rest := fun x hx => Or.inl (hlv x hx)
+    have hk : EndAt k rest := by
+      rcases spaced_level _ _ _ _ hsp with h | h
+      · rw [h]; exact endAt_top top (Nat.le_refl _) rest
+      · exact endAt_top k (by omega) rest
+    exact ih lv rest _ hle hr hk (evL_end lv e rest hend)
+  | func m k name a w0 w1 w2 s hn hw0 hw1 hw2 hsp ih =>
+    intro mp rest res _ hr _ hl
+    have hform : name ++ (w0 ++ '(' :: (w1 ++ (s ++ (w2 ++ [')'])))) ++ rest =
+        name ++ (w0 ++ '(' :: (w1 ++ (s ++ (w2 ++ ')' :: rest)))) := by simp
+    rw [hform]
+    refine evI_intro mp _ (.func (.ident name) a) rest res ?_ hl
+    exact evPA_funcB name w0 w1 w2 _ a rest hn hw0 hw1 hw2 (skip_spaced _ _ _ _ hsp _)
+      (closedS 0 k a s hsp ih (Nat.zero_le _) _ (atomEndB_paren w2 rest hw2) (endAt_parenB 0 w2 rest hw2))
+  | paren m k e w0 w1 s hw0 hw1 hsp ih =>
+    intro mp rest res _ hr _ hl
+    have hform : '(' :: (w0 ++ (s ++ (w1 ++ [')']))) ++ rest = '(' :: (w0 ++ (s ++ (w1 ++ ')' :: rest))) := by simp
+    rw [hform]
+    refine evI_intro mp _ e rest res ?_ hl
+    exact evPA_parenB w0 w1 _ e rest hw0 hw1 (skip_spaced _ _ _ _ hsp _)
+      (closedS 0 k e s hsp ih (Nat.zero_le _) _ (atomEndB_paren w1 rest hw1) (endAt_parenB 0 w1 rest hw1))
+  | bin m kl kr op l r w1 w2 sl sr hlv hw1 hw2 hspl hspr ihl ihr =>
+    intro mp rest res hmp hr he hloop
+    have hform : sl ++ (w1 ++ (op.text ++ (w2 ++ sr))) ++ rest = sl ++ (w1 ++ (op.text ++ (w2 ++ (sr ++ rest)))) := by simp
+    rw [hform]
+    obtain ⟨y, ys, hy, hys⟩ := spaced_head _ _ _ _ hspr
+    obtain ⟨c, rest', hcr, hc⟩ := after_op_char w2 sr rest hw2 y ys hy hys
+    have hLtop := opLevel_lt_top op
+    -- the left operand, then the loop at the operator
+    refine ihl mp _ res (by omega) (atomEndB_op w1 hw1 op _) ?_ ?_
+    · rcases spaced_level _ _ _ _ hspl with h | h
+      · rw [h]; exact endAt_top top (Nat.le_refl _) _
+      · rw [hcr]; exact endAt_opB op kl h w1 hw1 c rest' hc
+    · obtain ⟨pre, post, hs, hpre⟩ := table_entry op
+      apply evL_of_TI
+      rw [hs]
+      have hskX : skipSpace (w1 ++ (op.text ++ (w2 ++ (sr ++ rest)))) = op.text ++ (w2 ++ (sr ++ rest)) := by
+        rw [space_absorbs w1 _ hw1, skip_op]
+      refine evTI_passes mp l _ _ res pre _ ?_ ?_
+      · intro x hx
+        right
+        rw [hskX, hcr]
+        rcases lit_beforeB x.1 op.text (hpre x hx) c rest' hc with h | ⟨y', ys', h, hy'⟩
+        · exact Or.inl h
+        · exact Or.inr ⟨y', ys', h, nonStart_noStart y' hy'⟩
+      · refine evTI_match mp op.text op (opLevel op) (opLevel op + 1) post l _ _ (w2 ++ (sr ++ rest)) r rest res
+          (by omega) (by rw [hskX]; exact lit_self _ _) ?_ hloop
+        rw [skip_blanks_to w2 _ hw2 (skip_spaced _ _ _ _ hspr rest)]
+        exact closedS (opLevel op + 1) kr r sr hspr ihr (by omega) rest hr he
+
+/-- **parse (print e) = e with blanks and with parentheses that are not needed**: every way of
+    writing an expression with any blanks and tabs between its tokens — after prefix operators,
+    around binary operators, inside and outside parentheses, between a function name and its
+    parenthesis — with the parentheses the operator table requires and any number of further ones,
+    is read by `expr()` as exactly that expression -/
+theorem parse_print_spaced (k : Nat) (e : Expr) (s : Str) (h : Spaced 0 k e s) (rest : Str) (hr : AtomEndB rest)
+    (he : EndAt 0 rest) : expr (s ++ rest) = .ok e rest :=
+  expr_of_evI _ _ (closedS 0 k e s h (goesS 0 k e s h) (Nat.zero_le _) rest hr he)
+
+theorem parse_print_spaced_whole (k : Nat) (e : Expr) (s : Str) (h : Spaced 0 k e s) : expr s = .ok e [] := by
+  have := parse_print_spaced k e s h [] (atomEndB_of [] atomEnd_nil) (endAt_nil 0)
+  simpa using this
+
+/-- the minimal rendering is one of these texts -/
+theorem spaced_render (e : Expr) (h : Wf e) : ∀ m, ∃ k, Spaced m k e (render m e) := by
+  induction h with
+  | ident s hs => intro m; exact ⟨top, .ident m s hs⟩
+  | const v n hv hn => intro m; exact ⟨top, .const m v n hv hn⟩
+  | func name a hn ha ih =>
+    intro m
+    obtain ⟨k, hk⟩ := ih 0
+    refine ⟨top, ?_⟩
+    have := Spaced.func m k name a [] [] [] (render 0 a) hn (by intro c hc; simp at hc) (by intro c hc; simp at hc)
+      (by intro c hc; simp at hc) hk
+    simpa [render, exprText] using this
+  | un u e he ih =>
+    intro m
+    obtain ⟨k, hk⟩ := ih top
+    refine ⟨top, ?_⟩
+    have := Spaced.un m k u e [] (render top e) (by intro c hc; simp at hc) hk
+    simpa [render] using this
+  | bin op l r hl hr ihl ihr =>
+    intro m
+    obtain ⟨kl, hkl⟩ := ihl (opLevel op)
+    obtain ⟨kr, hkr⟩ := ihr (opLevel op + 1)
+    by_cases hp : opLevel op < m
+    · refine ⟨top, ?_⟩
+      have hopen := Spaced.bin 0 kl kr op l r [] [] _ _ (Nat.not_lt_zero _) (by intro c hc; simp at hc) (by intro c hc; simp at hc) hkl hkr
+      have := Spaced.paren m _ (.bin op l r) [] [] _ (by intro c hc; simp at hc) (by intro c hc; simp at hc) hopen
+      simpa [render, hp] using this
+    · refine ⟨opLevel op + 1, ?_⟩
+      have := Spaced.bin m kl kr op l r [] [] _ _ hp (by intro c hc; simp at hc) (by intro c hc; simp at hc) hkl hkr
+      simpa [render, hp] using this
+
+/-! non-vacuity: `a + (2)*low ( b )` -/
+example : ∃ k, Spaced 0 k (.bin .add (.ident ['a']) (.bin .mul (.const 2) (.func (.ident ['l', 'o', 'w']) (.ident ['b']))))
+    "a + (2)*low ( b )".toList :=
+  ⟨_, by
+    have hb : ∀ w : Str, w = [] ∨ w = [' '] → blanks w := by
+      intro w hw c hc; rcases hw with rfl | rfl <;> simp at hc; subst hc; decide
+    have h2 : Spaced (opLevel .mul) top (.const 2) ['(', '2', ')'] :=
+      Spaced.paren _ top (.const 2) [] [] ['2'] (hb _ (Or.inl rfl)) (hb _ (Or.inl rfl)) (Spaced.const 0 2 2 rfl (by decide))
+    have hf : Spaced (opLevel .mul + 1) top (.func (.ident ['l', 'o', 'w']) (.ident ['b'])) "low ( b )".toList :=
+      Spaced.func _ top ['l', 'o', 'w'] (.ident ['b']) [' '] [' '] [' '] ['b'] ⟨'l', ['o', 'w'], rfl, by decide, by decide⟩
+        (hb _ (Or.inr rfl)) (hb _ (Or.inr rfl)) (hb _ (Or.inr rfl)) (Spaced.ident 0 ['b'] ⟨'b', [], rfl, by decide, by decide⟩)
+    have hm : Spaced (opLevel .add + 1) (opLevel .mul + 1) (.bin .mul (.const 2) (.func (.ident ['l', 'o', 'w']) (.ident ['b'])))
+        "(2)*low ( b )".toList :=
+      Spaced.bin _ top top .mul _ _ [] [] _ _ (by decide) (hb _ (Or.inl rfl)) (hb _ (Or.inl rfl)) h2 hf
+    exact Spaced.bin 0 top _ .add _ _ [' '] [' '] ['a'] _ (by decide) (hb _ (Or.inr rfl)) (hb _ (Or.inr rfl))
+      (Spaced.ident _ ['a'] ⟨'a', [], rfl, by decide, by decide⟩) hm⟩
+
 end Avra.Props.C05pp
